@@ -2641,6 +2641,10 @@ def constructor_owns_records(cx: Cx, ob: Ob) -> None:
         if op(v) in ("new", "comp"):
             segs = list_segments(s, v, Prov(s))
             for sg in segs or ():
+                whole_record = sg[0] == "each" and any(op(c_) == "cmp" and sg[2] in (c_[2], c_[3]) for c_, _ in sg[3] if isinstance(c_, tuple))
+                if whole_record:
+                    ob.undecide("Converter.__init__ leaves out records that compare equal as a whole to one it has kept (identical duplicates): whether anything is lost is not followed")
+                    continue
                 if sg[0] == "each" and sg[3] and any(x == rp for x in subterms(sg[1])):
                     cond_txt = show(sg[3][0][0])[:60] if isinstance(sg[3][0], tuple) else ""
                     ob.violate(
